@@ -136,8 +136,11 @@ func durTables(k int, rng *rand.Rand, thorough bool) []*durTable {
 		"ms":   {time.Millisecond, 2 * time.Millisecond, 5 * time.Millisecond, time.Second, time.Minute, time.Hour},
 		"neg":  {-5 * time.Second, -2, 0, 2, 4, time.Second},
 		"huge": {math.MinInt64 + 2, -4, 4, math.MaxInt64 - 6, math.MaxInt64 - 4, math.MaxInt64 - 2},
+		// bounds whose value in seconds is not exactly representable / where d.Seconds() and float64(d)/1e9 differ by an ulp,
+		// and one beyond 2^53 ns where a float64 of nanoseconds loses the last unit
+		"fsec": {1128 * time.Millisecond, 1140 * time.Millisecond, 1265 * time.Millisecond, 1386 * time.Millisecond, 365 * 24 * time.Hour, 365*24*time.Hour + 2},
 	}
-	for _, n := range []string{"ms", "neg", "huge"} {
+	for _, n := range []string{"ms", "neg", "huge", "fsec"} {
 		out = append(out, mk(n+"/above", true, base[n]), mk(n+"/below", false, base[n]))
 	}
 	nr := 1
@@ -601,6 +604,87 @@ func init() {
 					}
 				}
 			}
+		}
+		// one unsorted specification handed to several roots that create their histograms at the same time
+		nshared := 40
+		if thorough {
+			nshared = 600
+		}
+		for it := 0; it < nshared; it++ {
+			spec := make(tally.ValueBuckets, 48)
+			for i := range spec {
+				spec[i] = float64(i*3 + 1)
+			}
+			rng.Shuffle(len(spec), func(i, j int) { spec[i], spec[j] = spec[j], spec[i] })
+			orig := append(tally.ValueBuckets{}, spec...)
+			var dspec tally.DurationBuckets
+			for _, v := range spec {
+				dspec = append(dspec, time.Duration(v)*time.Millisecond)
+			}
+			dorig := append(tally.DurationBuckets{}, dspec...)
+			const G = 4
+			roots := make([]tally.TestScope, G)
+			for g := range roots {
+				roots[g] = tally.VerifNewTestScope("", nil, 1)
+			}
+			var wg sync.WaitGroup
+			start := make(chan struct{})
+			for g := 0; g < G; g++ {
+				g := g
+				wg.Add(1)
+				go func() {
+					defer wg.Done()
+					<-start
+					hv := roots[g].Histogram("hv", spec)
+					hd := roots[g].Histogram("hd", dspec)
+					for _, b := range orig {
+						hv.RecordValue(b) // exactly on every bound
+					}
+					for _, b := range dorig {
+						hd.RecordDuration(b)
+					}
+				}()
+			}
+			close(start)
+			wg.Wait()
+			boundsOK, countsOK := true, true
+			for i := range orig {
+				if spec[i] != orig[i] || dspec[i] != dorig[i] {
+					boundsOK = false // the caller's slices were modified
+				}
+			}
+			for g := 0; g < G; g++ {
+				sn := roots[g].Snapshot()
+				for _, h := range sn.Histograms() {
+					if h.Name() == "hv" {
+						vals := h.Values()
+						for _, b := range orig {
+							if n, ok := vals[b]; !ok {
+								boundsOK = false
+							} else if n != 1 {
+								countsOK = false
+							}
+						}
+						if len(vals) != len(orig)+1 {
+							boundsOK = false
+						}
+					} else {
+						vals := h.Durations()
+						for _, b := range dorig {
+							if n, ok := vals[b]; !ok {
+								boundsOK = false
+							} else if n != 1 {
+								countsOK = false
+							}
+						}
+						if len(vals) != len(dorig)+1 {
+							boundsOK = false
+						}
+					}
+				}
+			}
+			tr.Emit(M{"e": "shared", "bounds_ok": boundsOK, "counts_ok": countsOK})
+			recs += 2 * G * len(orig)
 		}
 		tr.Close()
 		writeMeta(cm.out, M{"cases": cases, "events": tr.N, "records": recs, "distinct": len(distinct), "samples": samples,
